@@ -851,6 +851,8 @@ class ContextStateTransaction(_TransactionBase):
                 if adjust_version_counter:
                     self._mdib.context_states.set_version(tmp)
             elif adjust_version_counter:
+                # the entity may have been fetched before the descriptor was changed
+                tmp.DescriptorVersion = tmp.descriptor_container.DescriptorVersion
                 tmp.StateVersion = old_state.StateVersion + 1
 
             self._state_updates[state_container.Handle] = TransactionItem(old=old_state, new=tmp)
